@@ -218,6 +218,9 @@ def check_mixed(text, pn, regs):
 
 
 def replay(ctx, data):
+    if data.get("kind") == "exact_tree":
+        from props import c07
+        return c07.exact_args(data["files"], data["main"], data["inlined"])
     if data.get("kind") == "intpoint":
         w = data["want"]
         return check_intpoint(data["text"], {int(k): v for k, v in data["vals"].items()}, float(w) if ("." in w or "e" in w) else int(w), data.get("np_too", False))
@@ -346,6 +349,15 @@ def run(ctx):
         msg = check_intpoint(text, {a: x, b: y}, fn(x, y), np_too=recip)
         if msg:
             ctx.violation("register transform: " + msg, {"kind": "intpoint", "text": text, "vals": {str(a): x, str(b): y}, "want": repr(fn(x, y)), "np_too": recip})
+    # transforms inside an included program applied to other modes: expression, listed registers and function stay
+    # together (they are the ones written in the included file)
+    from props import c07
+    for k in range(ctx.n(4, 40)):
+        msg, rep = c07.special_tree(ctx.rng, 3)
+        ctx.count("transform-inside-an-included-program")
+        ctx.case(("inc-rrt", k, repr(rep["files"])), nontrivial=True)
+        if msg:
+            ctx.violation("register transform (included program): " + msg, rep)
     # a register argument next to a pure template-parameter argument in one statement: the parameter stays a
     # parameter, the register expression becomes a transform
     for _ in range(ctx.n(60, 600)):
